@@ -178,10 +178,11 @@ Definition hardcoded_password_funcarg (_ : jv) (c : ctx) : res (option rissue) :
   | None => Raise AttributeError
   end.
 
-(* B107: defs = [None] * (len(args) - len(defaults)); defs.extend(defaults)
+(* B107: params = args.posonlyargs + args.args;
+         defs = [None] * (len(params) - len(defaults)); defs.extend(defaults)
    (a negative count gives the empty list = truncated subtraction) *)
-Definition pad_defaults (args defaults : list node) : list (option node) :=
-  repeat None (List.length args - List.length defaults) ++ map Some defaults.
+Definition pad_defaults (params defaults : list node) : list (option node) :=
+  repeat None (List.length params - List.length defaults) ++ map Some defaults.
 
 Definition is_none_constant (v : node) : bool :=
   match const_of v with Some CNone => true | _ => false end.
@@ -212,9 +213,9 @@ Fixpoint default_scan (l : list (node * option node)) : res (option rissue) :=
 Definition hardcoded_password_default (_ : jv) (c : ctx) : res (option rissue) :=
   match field_opt "args" (c_node c) with
   | Some a =>
-      let args := field_list "args" a in
+      let params := field_list "posonlyargs" a ++ field_list "args" a in
       let defaults := field_list "defaults" a in
-      default_scan (combine args (pad_defaults args defaults))
+      default_scan (combine params (pad_defaults params defaults))
   | None => Raise AttributeError
   end.
 
